@@ -322,4 +322,19 @@ theorem rt_obsRt (enable : Bool) (warm : Nat) (calls : List (UInt16 × Option By
   rw [h0, warmUp_eq enable warm 0, Nat.zero_add]
   exact rt_from enable calls warm {}
 
+/-- the running id counts frames in whichever mode they were sent: `flipAt ≤ warm` earlier frames
+    sent with the option at the other value, the field then set by hand -/
+theorem rt_obsRtFlip (enable : Bool) (warm flipAt : Nat) (h : flipAt ≤ warm)
+    (calls : List (UInt16 × Option Bytes)) :
+    C11.rt enable warm calls (C11.obsRtFlip enable warm flipAt calls) = true := by
+  have h0 : ({ enablePictureID := !enable } : VP8Pay) = payState (!enable) 0 := by
+    simp [payState]
+  have h1 : ({ payState (!enable) flipAt with enablePictureID := enable } : VP8Pay) = payState enable flipAt := by
+    simp [payState]
+  unfold C11.obsRtFlip
+  rw [h0, warmUp_eq (!enable) flipAt 0, Nat.zero_add, h1, warmUp_eq enable (warm - flipAt) flipAt]
+  have h2 : flipAt + (warm - flipAt) = warm := by omega
+  rw [h2]
+  exact rt_from enable calls warm {}
+
 end Rtp.Proofs.VP8
